@@ -64,7 +64,9 @@ def retry(chk, crate):
                     slot_writes[i] = ("S", e)
                 else:
                     slot_writes[i] = ("U", e)
-    chk.require(any(v[0] == "N" for v in slot_writes.values()), "C09-a/anchor", "src.inner = None",
+    takes = [bb for bb, t_ in b.calls() if callee(t_) == "core::option::Option::<T>::take" and t_["args"] and
+             any(inner_path(x) for x in walk(ex.operand(t_["args"][0])))]
+    chk.require(any(v[0] == "N" for v in slot_writes.values()) or bool(takes), "C09-a/anchor", "src.inner = None",
                 "no statement clears the connection slot", "", f.sp(), nontrivial=False)
     # the error flag(s): every bool local is tracked path-sensitively (constants, copies, and the two
     # outcomes of Result::is_err); the anchor only requires that the item's status is inspected at all
@@ -239,6 +241,11 @@ def retry(chk, crate):
     # connect only when no live connection, and only its Ok value is stored
     cc = f.calls(lambda n_, t: n_ == "zvt_feig_terminal::stream::outer::inner::connect")
     tests = f.bool_switches(lambda e: is_call(e, "Option::<T>::is_none") and any(inner_path(x) for x in walk(e)))
+    # the same test spelled as a match on the slot: `match src.inner.as_mut() { Some(t) => .., None => <connect> }`
+    from client import option_switches
+    for obb, ox, some_t, none_t in option_switches(f, lambda x: any(inner_path(y) for y in walk(x))):
+        if obb not in [x[0] for x in tests]:
+            tests.append((obb, ox, none_t, some_t))
     if chk.require(len(cc) == 1 and len(tests) == 1, "C09-b/reconnect-shape", "into_stream_with_retry",
                    "expected one connect call and one is_none(&src.inner) test, found %d/%d" % (len(cc), len(tests)), "", f.sp()):
         tbb, e, tt, ft = tests[0]
@@ -251,9 +258,23 @@ def retry(chk, crate):
                     "the command stream is started without checking the connection slot", "", f.sp(), nontrivial=False)
         if seqs:
             a = f.ex.operand(seqs[0][1]["args"][1])
-            chk.require(any(inner_path(x) for x in walk(a)), "C09-d/uses-slot", "Sequence::into_stream",
+            uses = any(inner_path(x) for x in walk(a))
+            if not uses:
+                # a borrowed binding of the slot's content (`match src.inner.as_mut() { Some(t) => t, None => src.inner.insert(..) }`):
+                # every definition of the variable must come out of the slot
+                va = strip_ref(a)
+                if va[0] == "var":
+                    ds = f.tr.defs.get(va[2], [])
+                    exprs = [f.ex.rvalue(d[3]["rv"]) if d[2] == "assign" else f.call_expr(d[3], d[0]) for d in ds if d[2] in ("assign", "call")]
+                    uses = bool(exprs) and all(any(inner_path(x) for x in walk(e_)) for e_ in exprs)
+            chk.require(uses, "C09-d/uses-slot", "Sequence::into_stream",
                         "the command stream does not run on the vetted connection slot: %s" % show(a)[:100], "src.inner", f.sp(seqs[0][0]))
-    for bb, (kind, e) in slot_writes.items():
+    stores = dict(slot_writes)
+    for bb, t_ in b.calls():
+        if callee(t_) in ("core::option::Option::<T>::insert", "core::option::Option::<T>::replace", "core::option::Option::<T>::get_or_insert") \
+                and len(t_["args"]) == 2 and any(inner_path(x) for x in walk(ex.operand(t_["args"][0]))):
+            stores[bb] = ("S", ("agg", "core::option::Option::Some", (ex.operand(t_["args"][1]),)))
+    for bb, (kind, e) in stores.items():
         if kind == "S":
             from_connect = any(x[0] == "call" and x[1] == "zvt_feig_terminal::stream::outer::inner::connect" for x in walk(e))
             flds = [x[2] for x in walk(e) if x[0] == "proj"]
@@ -462,6 +483,25 @@ def drained(chk, crate, ctx):
         polls = {bb for bb, t in f.b.calls() if callee(t) == NEXT}
         rets = {i for i in f.reach if f.b.blocks[i]["term"]["t"] == "return"}
         edges = item_error_edges(f, replies)
+        if not edges:
+            # errors may be dropped by a combinator before the loop sees them: `.filter_map(|r| r.ok())` polls the
+            # wrapped stream again for every Err item, which drains it just like `continue`
+            fm = [t_ for _, t_ in f.b.calls() if callee(t_) == NEXT and "FilterMap<" in ty_str(t_["f"]["a"][0])]
+            bare = False
+            for i_ in sorted(f.reach):
+                t_ = f.b.blocks[i_]["term"]
+                if t_["t"] == "switch":
+                    v_ = f.tr.value(t_["d"])
+                    if v_.kind == "rv" and v_.rv["r"] == "discr":
+                        ty_ = v_.rv["of"]
+                        if ty_ and ty_.get("n") == "core::option::Option" and ty_.get("a") and ty_str(ty_["a"][0]) in replies:
+                            bare = True
+            if fm and bare:
+                chk.ok("C09-e/item-check", name, "error items are filtered out by filter_map (which keeps polling the stream)", f.sp(),
+                       nontrivial=False)
+                chk.ok("C09-e/failed-exchange-drained", name, "no Err item reaches the loop; FilterMap drains the stream", f.sp())
+                n_edges += 1
+                continue
         chk.require(len(edges) >= 1, "C09-e/item-check", name,
                     "no test of the polled item's Ok/Err status found: cannot show that a failed exchange is drained", "",
                     f.sp(), nontrivial=False)
